@@ -218,7 +218,7 @@ Definition roundtrip_fails (pt : Z) (st : pstate) (rest : list Z) : Prop :=
 (* F-C17b: CONNECT with Maximum Packet Size 268 435 456 packs to 05 27 10 00 00 00, unpack raises MQTTException *)
 Lemma c17_roundtrip_refuted_b : roundtrip_fails CONNECT [(39, One (VInt 268435456))] [].
 Proof.
-  repeat split; try (vm_compute; reflexivity).
+  split; [vm_compute; reflexivity|]. split; [vm_compute; reflexivity|]. split; [vm_compute; reflexivity|].
   intros [b [H1 H2]]. vm_compute in H1. injection H1 as <-. vm_compute in H2. discriminate.
 Qed.
 
@@ -226,7 +226,7 @@ Qed.
 Lemma c17_roundtrip_refuted_d :
   roundtrip_fails PUBLISH [(38, Many [VPair (SStr [239; 187; 191]) (SStr [120])])] [].
 Proof.
-  repeat split; try (vm_compute; reflexivity).
+  split; [vm_compute; reflexivity|]. split; [vm_compute; reflexivity|]. split; [vm_compute; reflexivity|].
   intros [b [H1 H2]]. vm_compute in H1. injection H1 as <-. vm_compute in H2. discriminate.
 Qed.
 
